@@ -28,6 +28,8 @@ FMT_ARITY = {t: a for t, a in FMT}
 
 def plan(tier):
     t = [{'kind': 'bits'}, {'kind': 'dict'}, {'kind': 'db'}]
+    for nin in (255, 256, 32767, 32768, 40000, 70001):
+        t.append({'kind': 'hugeif', 'nin': nin})
     for pat in ('not-and', 'cmp', 'xor-nor', 'iff-not'):
         for L in space.DEEP_LENGTHS[tier][:2]:
             for st in ('fwd', 'rev'):
@@ -46,7 +48,7 @@ def plan(tier):
 
 def describe(tier):
     return {
-        'rule': 'dictionary entries whose value / key is 255..65535 bytes long (around 2^8, 2^15, 2^16-1); zero-width numbers at byte boundaries and at the end of the data; deep: encode/decode of chains of 1200/3000 gates in four format patterns, both storage orders; bytes(writer) read after every single write (an observation must not change what is written next); circ: every circuit of F(n,k,FMT) (14 format types at format arities - constants carry two operands; n>=0) and F(n,k,EXT) (3/4-ary gates, '
+        'rule': 'interfaces of 255..70001 inputs (node numbers of 8..17 bits); keys in non-NFC spellings next to their NFC twins; dictionary entries whose value / key is 255..65535 bytes long (around 2^8, 2^15, 2^16-1); zero-width numbers at byte boundaries and at the end of the data; deep: encode/decode of chains of 1200/3000 gates in four format patterns, both storage orders; bytes(writer) read after every single write (an observation must not change what is written next); circ: every circuit of F(n,k,FMT) (14 format types at format arities - constants carry two operands; n>=0) and F(n,k,EXT) (3/4-ary gates, '
         'L*/R* types, constants with 0/1 operands) x outputs (all sequences of length 0..2) x object/storage variants (creation; copy.deepcopy; pickle round trip; declared input order reversed / rotated; every '
         'order reachable by renaming each gate away and back) -> encode/decode; structural '
         'comparison up to renaming + truth tables. bits: every bit string of length<=12, every write_number(v,len) '
@@ -217,6 +219,41 @@ def check_deep(acc, pattern, L, storage):
     acc.outcome('codec', ('deep', pattern, len(data)))
 
 
+def check_huge_interface(acc, nin):
+    """tens of thousands of inputs (node numbers need 16 and more bits): encode/decode"""
+    from cirbo.circuits_db.circuits_encoding import decode_circuit, encode_circuit
+    from cirbo.core.circuit import Circuit, gate as G
+
+    c = Circuit()
+    ins = [f'i{j}' for j in range(nin)]
+    c.add_inputs(ins)
+    c.emplace_gate('a', G.AND, (ins[0], ins[-1]))
+    c.emplace_gate('b', G.GT, (ins[nin // 2], 'a'))
+    c.emplace_gate('c', G.NOT, ('b',))
+    c.emplace_gate('d', G.XOR, ('c', ins[1]))
+    c.set_outputs(['d', 'a', ins[-1]])
+    c = space.variant(c)
+    case = {'huge_interface': nin}
+    acc.states += 1
+    acc.traces += 1
+    acc.transitions += 2
+    try:
+        d = decode_circuit(encode_circuit(c))
+    except Exception as e:  # noqa: BLE001
+        acc.violation(f'codec/raises-{type(e).__name__}', case, repr(e)[:200], {'in_format': True})
+        return
+    got = refmodel.abstract(d)
+    if len(got.inputs) != nin or len(got.outputs) != 3 or len(got.gates) != nin + 4 or refmodel.wellformed(d, deep=False):
+        acc.violation('codec/silently-different-circuit', case, f'{len(got.inputs)} inputs, {len(got.outputs)} outputs, {len(got.gates)} gates', {'in_format': True})
+        return
+    pos = {l: i for i, l in enumerate(got.inputs)}
+    types = sorted((t, tuple(pos.get(o, 'g') for o in ops)) for t, ops in got.gates.values() if t != 'INPUT')
+    want = sorted([('AND', (0, nin - 1)), ('GT', (nin // 2, 'g')), ('NOT', ('g',)), ('XOR', ('g', 1))])
+    if types != want or pos.get(got.outputs[2]) != nin - 1:
+        acc.violation('codec/silently-different-circuit', case, f'{types}', {'in_format': True})
+    acc.outcome('codec', ('huge', nin))
+
+
 def check_bits(acc):
     from cirbo.circuits_db.bit_io import BitReader, BitWriter
     from cirbo.circuits_db.exceptions import BitIOError
@@ -367,7 +404,7 @@ def check_bits(acc):
     acc.sample({'numbers': [[5, 3], [0, 0], [17, 5]]})
 
 
-KEYS = ['', 'a', 'ab', 'é', '€', '\ufeffa', 'a\ufeff']
+KEYS = ['', 'a', 'ab', 'é', '€', '\ufeffa', 'a\ufeff', 'e\u0301', '\u212b', '\u1112\u1161\u11ab', '\u00c5']  # incl. non-NFC spellings next to their NFC twins
 VALS = [b'', b'\x00', b'ab']
 
 
@@ -541,6 +578,8 @@ def check_db(acc):
 def run_task(task, acc):
     if task.get('kind') == 'deep':
         return check_deep(acc, task['pattern'], task['L'], task['storage'])
+    if task.get('kind') == 'hugeif':
+        return check_huge_interface(acc, task['nin'])
     kind = task['kind']
     if kind == 'bits':
         return check_bits(acc)
@@ -556,6 +595,8 @@ def run_task(task, acc):
 def replay(case, acc):
     if 'deep_chain' in case:
         return check_deep(acc, case['deep_chain'], case['length'], case['storage'])
+    if 'huge_interface' in case:
+        return check_huge_interface(acc, case['huge_interface'])
     if 'task' in case:
         return run_task(case['task'], acc)
     if 'gates' in case:
